@@ -1,7 +1,8 @@
 // target: src/store/fs.rs
 // labels: mig.v2tuples.*
 // tier: quick
-// bound: one store built through the current API (two documents - one write, one read capability -, two authors, 6 entries incl. a deletion marker and
+// bound: one store built through the current API (two documents - one write, one read capability -, two authors, 8 entries incl. a deletion marker, two
+// entries of one author at the same greatest timestamp (the maintained head names the later written one) and
 // keys with 0xff bytes, a download policy, three useful peers), copied table by table into a file in the format iroh-docs 0.94..=0.98 wrote (redb 2.x
 // tuple tags on records / by-key / heads); that file is opened with Store::persistent (file-format migration + table migrations) and every observable
 // (documents with capability kind, authors, entries by both query paths, heads, policy, peers) must equal the original; a second reopen changes nothing.
@@ -61,6 +62,14 @@ mod verif_rp_c18_legacy_file {
                 let e = SignedEntry::from_parts(nss, a, k, rec);
                 r.insert_remote_entry(e, [9u8; 32], crate::ContentStatus::Missing).await.unwrap();
             }
+            if open_id == docs[0] {
+                // two entries of one author at the same, greatest timestamp, the one with the smaller key written later: the maintained head names the
+                // later one ("tb"), a rebuild from the records would name the greater key ("tz")
+                for k in [b"tz".as_slice(), b"tb".as_slice()] {
+                    let e = SignedEntry::from_parts(nss, &authors[1], k, Record::new(Hash::new(k), 2, base + 500));
+                    r.insert_remote_entry(e, [9u8; 32], crate::ContentStatus::Missing).await.unwrap();
+                }
+            }
             drop(r);
             reference.close_replica(open_id);
         }
@@ -113,7 +122,16 @@ mod verif_rp_c18_legacy_file {
         assert_eq!(got.1, want.1, "WITNESS authors after opening the legacy file ({})", what);
         assert_eq!(got.2, want.2, "WITNESS entries (author-key path) after opening the legacy file ({})", what);
         assert_eq!(got.3, want.3, "WITNESS entries (key-author path) after opening the legacy file ({})", what);
-        assert_eq!(got.4, want.4, "WITNESS author heads after opening the legacy file ({})", what);
+        if with_derived {
+            assert_eq!(got.4, want.4, "WITNESS author heads after opening the legacy file ({})", what);
+        } else {
+            // rebuilt heads: the timestamp is determined; on equal timestamps the head may name any of the newest entries of the author
+            let strip = |h: &Vec<Vec<(Vec<u8>, u64, Vec<u8>)>>| h.iter().map(|d| d.iter().map(|(a, t, _)| (a.clone(), *t)).collect::<Vec<_>>()).collect::<Vec<_>>();
+            assert_eq!(strip(&got.4), strip(&want.4), "WITNESS author heads after opening the legacy file ({})", what);
+            for (d, hs) in got.4.iter().enumerate() { for (a, t, k) in hs {
+                assert!(got.2[d].iter().any(|(ea, ek, et, _, _)| ea == a && ek == k && et == t), "WITNESS a rebuilt head names no held entry with its timestamp ({})", what);
+            } }
+        }
         assert_eq!(got.5, want.5, "WITNESS download policies after opening the legacy file ({})", what);
         assert_eq!(got.6, want.6, "WITNESS useful peers after opening the legacy file ({})", what);
         }
